@@ -200,9 +200,8 @@ Proof.
     cbn [rev] in *. set (m := rev rest') in *.
     rewrite sumZ_cons in Hsum.
     assert (Hsm : sumZ m = sumZ rest') by (apply sumZ_rev).
-    destruct (m ++ [d]) eqn:E.
-    { apply app_eq_nil in E as [_ E]. discriminate. }
-    rewrite <- E. clear E.
+    replace (match m ++ [d] with [] => [0] | _ :: _ => m ++ [d] end) with (m ++ [d])
+      by (destruct m; reflexivity).
     rewrite Z.add_0_l. split; [reflexivity|].
     specialize (Hlast d rest' eq_refl).
     subst cs cs1.
@@ -214,3 +213,164 @@ Proof.
     + specialize (Hhd _ _ eq_refl). lia.
     + specialize (Hhd _ _ eq_refl). lia.
 Qed.
+
+(* ------------------------------------------------------------------------------------------------ *)
+(* (2) N-d requested set *)
+
+Definition ax_ok (cs : list Z) (ix : Z * Z) : Prop := 0 <= fst ix /\ fst ix < snd ix /\ snd ix <= sumZ cs.
+
+Lemma norm_bound_range n o d : 0 <= n -> 0 <= d <= n -> 0 <= norm_bound n o d <= n.
+Proof.
+  intros Hn Hd. unfold norm_bound. destruct o as [z|]; [|lia].
+  destruct (z <? 0) eqn:E; lia.
+Qed.
+
+Lemma norm_index_ok : forall chunks index,
+  Forall posl chunks ->
+  Forall (fun se => fst se < snd se) (norm_index (chunks_shape chunks) index) ->
+  Forall2 ax_ok chunks (norm_index (chunks_shape chunks) index).
+Proof.
+  unfold chunks_shape.
+  induction chunks as [|cs chunks IH]; intros index Hp Hn.
+  - constructor.
+  - inversion Hp; subst.
+    pose proof (sumZ_nonneg cs H1) as Hnn.
+    destruct index as [|ix index]; cbn [map norm_index] in *; inversion Hn; subst; constructor; auto.
+    + unfold ax_ok; cbn [fst snd] in *. lia.
+    + unfold ax_ok, norm_slice in *; cbn [fst snd] in *.
+      pose proof (norm_bound_range (sumZ cs) (fst ix) 0 Hnn).
+      pose proof (norm_bound_range (sumZ cs) (snd ix) (sumZ cs) Hnn).
+      lia.
+Qed.
+
+Lemma prune_axes : forall chunks nix, Forall posl chunks -> Forall2 ax_ok chunks nix ->
+  map (fun x => map (shift (snd x)) (needed_axis (fst (fst x)) (snd (fst x)))) (prune chunks nix)
+    = map (fun p => filter (overlaps (snd p)) (intervals 0 (fst p))) (combine chunks nix).
+Proof.
+  intros chunks nix Hp H. revert Hp.
+  induction H as [|cs ix chunks nix Hok H IH]; intros Hp; cbn [prune combine map]; auto.
+  inversion Hp; subst. f_equal; [|apply IH; auto].
+  destruct ix as [s e]. destruct Hok as (Ha & Hb & Hc). cbn [fst snd] in *.
+  pose proof (prune_axis_requests cs s e H2 Ha Hb Hc) as K.
+  destruct (prune_axis cs (s, e)) as [[cs' ix'] off']. cbn [fst snd].
+  destruct K as [_ K]. exact K.
+Qed.
+
+Lemma map_flat_map {A B C} (f : B -> C) (g : A -> list B) l :
+  map f (flat_map g l) = flat_map (fun x => map f (g x)) l.
+Proof. induction l as [|a l IH]; cbn [flat_map map]; auto. rewrite map_app, IH. reflexivity. Qed.
+
+Lemma flat_map_map {A B C} (h : A -> B) (g : B -> list C) l :
+  flat_map g (map h l) = flat_map (fun x => g (h x)) l.
+Proof. induction l as [|a l IH]; cbn [flat_map map]; auto. rewrite IH. reflexivity. Qed.
+
+Lemma filter_flat_map {A B} (p : B -> bool) (g : A -> list B) l :
+  filter p (flat_map g l) = flat_map (fun x => filter p (g x)) l.
+Proof. induction l as [|a l IH]; cbn [flat_map filter]; auto. rewrite filter_app, IH. reflexivity. Qed.
+
+Lemma flat_map_filter {A B} (p : A -> bool) (g : A -> list B) l :
+  flat_map g (filter p l) = flat_map (fun x => if p x then g x else []) l.
+Proof.
+  induction l as [|a l IH]; cbn [flat_map filter]; auto.
+  destruct (p a); cbn [flat_map app]; rewrite IH; reflexivity.
+Qed.
+
+Lemma cart_length {T} (ls : list (list T)) : forall x, In x (cart ls) -> length x = length ls.
+Proof.
+  induction ls as [|l ls IH]; cbn [cart]; intros x H.
+  - destruct H as [<-|[]]. reflexivity.
+  - apply in_flat_map in H as (y & Hy & Hx). apply in_map_iff in Hx as (z & <- & Hz).
+    cbn [length]. f_equal. auto.
+Qed.
+
+Lemma add_offset_zero sl : forall off, length sl = length off ->
+  existsb (fun o => negb (o =? 0)) off = false -> add_offset sl off = sl.
+Proof.
+  induction sl as [|[s e] sl IH]; intros [|o off] Hl Hz; cbn [add_offset existsb length] in *;
+    try discriminate; auto.
+  apply orb_false_elim in Hz as [H1 H2].
+  f_equal; [f_equal; lia|]. apply IH; auto.
+Qed.
+
+Lemma get_slices_add off sl : length sl = length off -> get_slices off sl = add_offset sl off.
+Proof.
+  intros Hl. unfold get_slices. destruct (existsb _ off) eqn:E; auto.
+  symmetry. apply add_offset_zero; auto.
+Qed.
+
+Lemma map_add_offset_cart {X} (f : X -> list (Z * Z)) (g : X -> Z) (pr : list X) :
+  map (fun sl => add_offset sl (map g pr)) (cart (map f pr))
+    = cart (map (fun x => map (shift (g x)) (f x)) pr).
+Proof.
+  induction pr as [|x pr IH]; cbn [map cart]; auto.
+  rewrite map_flat_map, flat_map_map. apply flat_map_ext. intros [s e].
+  rewrite <- IH, !map_map. reflexivity.
+Qed.
+
+Lemma filter_map_cons p ixs x (L : list slices) :
+  filter (overlaps_all (p :: ixs)) (map (cons x) L)
+    = if overlaps p x then map (cons x) (filter (overlaps_all ixs) L) else [].
+Proof.
+  induction L as [|a L IH]; cbn [map filter].
+  - destruct (overlaps p x); reflexivity.
+  - change (overlaps_all (p :: ixs) (x :: a)) with (overlaps p x && overlaps_all ixs a).
+    rewrite IH. destruct (overlaps p x); cbn [andb]; auto.
+    destruct (overlaps_all ixs a); reflexivity.
+Qed.
+
+Lemma filter_cart : forall (chunks : list (list Z)) ixs, length chunks = length ixs ->
+  filter (overlaps_all ixs) (cart (map (intervals 0) chunks))
+    = cart (map (fun p => filter (overlaps (snd p)) (intervals 0 (fst p))) (combine chunks ixs)).
+Proof.
+  induction chunks as [|cs chunks IH]; intros [|ix ixs] Hl; cbn [length] in *; try discriminate.
+  - reflexivity.
+  - cbn [map cart combine fst snd].
+    rewrite filter_flat_map, flat_map_filter. apply flat_map_ext. intros x.
+    rewrite filter_map_cons, IH by lia. reflexivity.
+Qed.
+
+Lemma Forall2_len {A B} (R : A -> B -> Prop) l1 l2 : Forall2 R l1 l2 -> length l1 = length l2.
+Proof. induction 1; cbn [length]; auto. Qed.
+
+Lemma pruned_requests : forall chunks index,
+  Forall (fun cs => Forall (fun c => 0 < c) cs) chunks ->
+  Forall (fun se => fst se < snd se) (norm_index (chunks_shape chunks) index) ->
+  let pr := prune chunks (norm_index (chunks_shape chunks) index) in
+  map (get_slices (map snd pr)) (cart (map (fun x => needed_axis (fst (fst x)) (snd (fst x))) pr))
+    = spec_requested chunks index.
+Proof.
+  intros chunks index Hp Hn. cbv zeta.
+  pose proof (norm_index_ok chunks index Hp Hn) as Hok.
+  unfold spec_requested, blocks.
+  set (nix := norm_index (chunks_shape chunks) index) in *.
+  rewrite filter_cart by (eapply Forall2_len; eauto).
+  rewrite <- prune_axes by auto.
+  rewrite <- map_add_offset_cart.
+  apply map_ext_in. intros sl Hin.
+  apply get_slices_add. apply cart_length in Hin.
+  rewrite Hin, !map_length. reflexivity.
+Qed.
+
+(* ------------------------------------------------------------------------------------------------ *)
+(* (3) non-vacuity and the empty-selection refutation *)
+
+Example pruned_requests_example :
+  let chunks := [[2;2;2];[1;1]] in
+  let index := [(Some 1, Some 5); (Some 1, Some 2)] in
+  let pr := prune chunks (norm_index (chunks_shape chunks) index) in
+  map (get_slices (map snd pr)) (cart (map (fun x => needed_axis (fst (fst x)) (snd (fst x))) pr))
+    = [[(0,2);(1,2)]; [(2,4);(1,2)]; [(4,6);(1,2)]]
+  /\ spec_requested chunks index = [[(0,2);(1,2)]; [(2,4);(1,2)]; [(4,6);(1,2)]].
+Proof. vm_compute. split; reflexivity. Qed.
+
+Example pruned_empty_requests_refuted :
+  let chunks := [[2;2;2]] in
+  let index := [(Some 2, Some 2)] in
+  let pr := prune chunks (norm_index (chunks_shape chunks) index) in
+  map (get_slices (map snd pr)) (cart (map (fun x => needed_axis (fst (fst x)) (snd (fst x))) pr))
+    = [[(2,2)]]
+  /\ spec_requested chunks index = [].
+Proof. vm_compute. split; reflexivity. Qed.
+
+Print Assumptions prune_axis_requests.
+Print Assumptions pruned_requests.
